@@ -255,7 +255,31 @@ func NormalizeFrequencies(freqs []int, alphabet []int, totalFreq, scale int) (in
 		}
 	}
 
-	freqs[idxMax] = max(freqs[idxMax]-delta, 1)
+	if delta > 0 {
+		if inc > 0 {
+			// Not enough adjustments: give the remainder to the max frequency
+			freqs[idxMax] += delta
+		} else {
+			// Take the remainder from the max frequency but never zero it out
+			d := min(delta, freqs[idxMax]-1)
+			freqs[idxMax] -= d
+			delta -= d
+
+			// Rare: the max frequency cannot absorb the whole remainder. Take the
+			// rest from the other symbols without dropping any of them (always
+			// possible since alphabetSize <= scale).
+			for _, idx := range alphabet[0:alphabetSize] {
+				if delta == 0 {
+					break
+				}
+
+				d = min(delta, freqs[idx]-1)
+				freqs[idx] -= d
+				delta -= d
+			}
+		}
+	}
+
 	return alphabetSize, nil
 }
 
